@@ -446,7 +446,15 @@ def validate(d: dict, version: (float | None) = None) -> list:
 
     """
     v = Validator()
-    return v.validate(d, version=version)
+    error_messages = []
+
+    # validate each root object against the schema for its own type (e.g. a partial
+    # Mapfile containing only a LAYER), rather than always using the MAP schema
+    for root in d if isinstance(d, list) else [d]:
+        schema_name = str(root.get("__type__", "map")).lower()
+        error_messages += v.validate(root, schema_name=schema_name, version=version)
+
+    return error_messages
 
 
 def _save(output_file: str, string: str) -> None:
